@@ -298,6 +298,22 @@ def _is_result_of(op: StreamOp, arg: ast.AST, kcall: ast.Call, at: ast.Call) -> 
     return len(ds) == 1 and ds[0].value is kcall
 
 
+def _through_temps(op: StreamOp, arg: ast.AST, at: ast.AST, depth: int = 4) -> ast.AST:
+    """`tmp = buf[:n]; cwrite(tmp)` writes `buf[:n]`: follow single-definition temporaries that only name a view."""
+    while depth and isinstance(arg, ast.Name):
+        ds = op.flow.reaching(arg.id, op.cfg.node_for(at))
+        if len(ds) != 1 or ds[0].kind != "assign" or not isinstance(ds[0].value, (ast.Name, ast.Subscript)):
+            break
+        v = ds[0].value
+        if isinstance(v, ast.Subscript):
+            # the slice bounds are evaluated where the view was taken
+            sl = op.flow.expand(v.slice, ds[0].node)
+            return ast.copy_location(ast.Subscript(value=v.value, slice=sl, ctx=ast.Load()), v)
+        arg = v
+        depth -= 1
+    return arg
+
+
 def _written_is(res, op: StreamOp, lp, tag: str, pred, what: str) -> None:
     cws = _written(op, lp)
     key = f"{tag}:written"
@@ -305,7 +321,7 @@ def _written_is(res, op: StreamOp, lp, tag: str, pred, what: str) -> None:
         res.bad("R5", op.fn, lp.node, f"expected exactly one cwrite per block, found {len(cws)}", key=key)
         return
     c = cws[0]
-    if c.args and pred(c.args[0], c):
+    if c.args and pred(_through_temps(op, c.args[0], c), c):
         res.ok("R5", op.fn, c, f"the array written in each iteration is {what}", key=key)
     else:
         res.bad("R5", op.fn, c, f"the array written (`{norm(c.args[0]) if c.args else ''}`) is not {what}", key=key)
